@@ -331,12 +331,57 @@ def strat_hist(tier):
     vec = st.fixed_dictionaries({"n": st.floats(0, 1), "r": st.floats(0, 1), "alpha": st.floats(0, 1), "s1": st.floats(0, 1), "s2": st.floats(0, 1)})
     return st.fixed_dictionaries({
         "noise": st.sampled_from(["prior_scalar", "prior_per_channel", "prior_per_channel", "mixed_per_channel", "fixed_per_channel"]),
-        "model": st.sampled_from(["alpha", "exact"]),
+        "model": st.sampled_from(["alpha", "exact", "many_parameters"]),
         "shape": st.tuples(st.integers(2, 6), st.integers(2, 6)).map(list), "spacing": gen.rounded(0.08, 0.3, 3),
         "truth": st.fixed_dictionaries({"n": gen.rounded(1.45, 1.7, 3), "r": gen.rounded(0.3, 0.8, 3), "z": gen.rounded(4.0, 12.0, 2)}),
         "vecs": st.lists(vec, min_size=2, max_size=5), "resid_seed": st.integers(0, 2 ** 31 - 1),
         "subset": st.one_of(st.none(), st.floats(0.2, 0.9)),
     })
+
+
+def _run_many(case):
+    """a model with more than ten free parameters (three spheres with every n, r, x, y, z free, alpha and the noise
+    level): forward hologram and likelihood against the public calculation for a scatterer assembled here from the
+    parameter names, not by the model."""
+    from holopy.core import prior
+    from holopy.core.metadata import detector_grid
+    from holopy.scattering import Sphere, Spheres, Mie, calc_holo
+    from holopy.inference import AlphaModel
+    t = case["truth"]
+    nx, ny = case["shape"]; sp = case["spacing"]
+    okw = dict(medium_index=1.33, illum_wavelen=0.66, illum_polarization=(1.0, 0.0))
+    base = [(0.0, 0.0), (3.0, 0.5), (-1.0, 3.5)]
+    spheres = [Sphere(n=prior.Uniform(1.4, 1.8), r=prior.Uniform(0.2, 0.6),
+                      center=[prior.Uniform(bx - 0.3, bx + 0.3), prior.Uniform(by - 0.3, by + 0.3), prior.Uniform(t["z"] - 0.5, t["z"] + 0.5)])
+               for bx, by in base]
+    model = AlphaModel(Spheres(spheres, warn=False), alpha=prior.Uniform(0.5, 1.0), noise_sd=prior.Uniform(0.01, 0.6), theory=Mie(), **okw)
+    names = list(model._parameter_names)
+    labels = ["many_parameters", "parameters_%d" % len(names)]
+    if len(names) != 17:
+        return Outcome(failure("harness_error", "expected 17 parameters, got %r" % names), False, labels)
+    det = detector_grid((nx, ny), sp)
+    rng = np.random.RandomState(case["resid_seed"] % (2 ** 31))
+    data = None
+    for i, u in enumerate(case["vecs"]):
+        frac = rng.uniform(0.05, 0.95, size=len(names))
+        vec = [p.lower_bound + f * (p.upper_bound - p.lower_bound) for p, f in zip(model._parameters, frac)]
+        val = dict(zip(names, vec))
+        built = Spheres([Sphere(n=val["%d:n" % j], r=val["%d:r" % j], center=(val["%d:center.0" % j], val["%d:center.1" % j], val["%d:center.2" % j]))
+                         for j in range(3)], warn=False)
+        pub = calc_holo(det, built, theory=Mie(), scaling=val["alpha"], **okw)
+        if data is None:
+            data = pub + 0.05 * rng.standard_normal(pub.shape)
+            data.attrs = pub.attrs
+        fwd = model.forward(vec, det)
+        if not np.array_equal(np.asarray(fwd.values), np.asarray(pub.values)):
+            return Outcome(failure("forward_vs_calc_holo", "17-parameter model: forward differs from the public calc_holo for the scatterer named by the parameters by %.3g"
+                                   % np.abs(fwd.values - pub.values).max(), model="many_parameters"), True, labels)
+        got = model.lnlike(vec, data)
+        z = (pub - data).values / val["noise_sd"]
+        ref = -0.5 * z.size * math.log(2 * math.pi) - z.size * math.log(val["noise_sd"]) - 0.5 * float((z ** 2).sum())
+        if abs(got - ref) > 1e-10 * max(1.0, abs(ref)) * TOLX:
+            return Outcome(failure("lnlike_value", "17-parameter model, evaluation %d: lnlike %r, Gaussian log-density %r" % (i + 1, got, ref), noise="prior_scalar"), True, labels)
+    return Outcome(None, True, labels)
 
 
 def run_hist(case):
@@ -366,6 +411,8 @@ def run_hist(case):
         if case["model"] == "alpha":
             return AlphaModel(sph, alpha=prior.Uniform(0.5, 1.0), noise_sd=noise, theory=Mie(), **okw)
         return ExactModel(sph, noise_sd=noise, theory=Mie(), **okw)
+    if case["model"] == "many_parameters":
+        return _run_many(case)
     det = detector_grid((nx, ny), sp, extra_dims={"illumination": chans} if per_channel else None)
     clean = calc_holo(det, Sphere(n=t["n"], r=t["r"], center=[0.5 * nx * sp, 0.5 * ny * sp, t["z"]]), theory=Mie(), scaling=0.8, **okw)
     rng = np.random.RandomState(case["resid_seed"])
